@@ -258,7 +258,13 @@ func keyContainers(w *Walker, op tableOp) ([]cv, string, bool) {
 
 // sliceInserted follows a slice backwards (appends, phis, variable cells, results of inlined helpers on their live returns,
 // parameters) and returns the values that are put into it as elements. complete=false when a source was not understood.
-func sliceInserted(c *Ctx, v ssa.Value) (out []cv, complete bool) {
+type insElem struct {
+	c  *Ctx
+	v  ssa.Value
+	st *ssa.Store // the store that puts v into the backing array
+}
+
+func sliceInserted(c *Ctx, v ssa.Value) (out []insElem, complete bool) {
 	complete = true
 	seen := map[cv]bool{}
 	arrayStores := func(c *Ctx, al *ssa.Alloc) {
@@ -268,7 +274,7 @@ func sliceInserted(c *Ctx, v ssa.Value) (out []cv, complete bool) {
 					if rr := ia.Referrers(); rr != nil {
 						for _, u := range *rr {
 							if st, ok := u.(*ssa.Store); ok && st.Addr == ssa.Value(ia) {
-								out = append(out, cv{c, st.Val})
+								out = append(out, insElem{c, st.Val, st})
 							}
 						}
 					}
